@@ -1,10 +1,12 @@
+\* the design as it is: repaired engine, inspections keep engineControlMu; 2 overlapping clients
 SPECIFICATION Spec
 CONSTANTS
   NEvents = 2
   Clients = {"c1", "c2"}
   MaxReq = 1
   Endpoints = {"pause", "continue", "state", "now", "tick", "component", "field", "buffers", "progress"}
-  PauseWaits = FALSE
+  PauseWaits = TRUE
+  HoldCtl = TRUE
   Atomic = FALSE
   Record = FALSE
 INVARIANT TypeOK
@@ -14,4 +16,6 @@ INVARIANT WindowOK
 INVARIANT RunningOK
 INVARIANT InspectUnderFlag
 INVARIANT DispatchLockOK
+INVARIANT InspectionHeld
+INVARIANT NoConcurrentAccessUnderPause
 PROPERTY Termination
